@@ -224,7 +224,7 @@ pub fn run() {
     c.set_rule("cases = diagrams; for each, every rule x every argument tuple over its vertices plus two non-existent ids x 2 backends is checked (counter check_calls); non-trivial = at least one matcher accepted; distinct = distinct diagram descriptions");
     c.assume("independent evaluator O2 / ring O1 correct (self-tested, cross-checked)");
     c.assume("'bit-for-bit unchanged' is decided by the backend's derived PartialEq (all fields incl. holes and counters)");
-    let (ms, n_rand) = t.pick((6usize, 1500usize), (9usize, 60_000usize));
+    let (ms, n_rand) = t.pick((6usize, 3000usize), (9usize, 80_000usize));
     par_cases("arbitrary-exact", n_rand, move |r, i| {
         let d = gen_random(r, &DiagParams { max_spiders: ms, max_bnd: 3, pool: PhasePool::CliffordHeavy, graph_like: false, bare_wires: true, var_prob: 0.0 });
         check_desc("arbitrary-exact", i, r, &d);
